@@ -45,10 +45,35 @@ type Proxy struct {
 	Tree    func(uni.Tree) (uni.Tree, error)
 	Nothing func(string)
 	OnlyErr func(string) error
+	CtxAny  func(string, interface{}) (string, error)
+	CtxVar  func(int, ...interface{}) (int, error)
+	CtxMap  func(map[string]int, interface{}, *int) (int, error)
 }
 
 var proxyField = map[string]string{"noArgs": "NoArgs", "hello": "Hello", "add": "Add", "Scalars": "Scalars", "structs": "Structs", "ptrs": "Ptrs", "slices": "Slices", "maps": "Maps",
-	"echo": "Echo", "join": "Join", "sum": "Sum", "any": "Any", "withCtx": "WithCtx", "special": "Special", "multi": "Multi", "repeat": "Repeat", "tree": "Tree", "nothing": "Nothing", "onlyErr": "OnlyErr"}
+	"echo": "Echo", "join": "Join", "sum": "Sum", "any": "Any", "withCtx": "WithCtx", "special": "Special", "multi": "Multi", "repeat": "Repeat", "tree": "Tree", "nothing": "Nothing", "onlyErr": "OnlyErr", "ctxAny": "CtxAny", "ctxVar": "CtxVar", "ctxMap": "CtxMap"}
+
+var ctxType = reflect.TypeOf((*context.Context)(nil)).Elem()
+
+// ctxProxyType is Proxy with a leading context.Context parameter on every function.
+var ctxProxyType = func() reflect.Type {
+	pt := reflect.TypeOf(Proxy{})
+	var fields []reflect.StructField
+	for i := 0; i < pt.NumField(); i++ {
+		f := pt.Field(i)
+		ft := f.Type
+		ins := []reflect.Type{ctxType}
+		for k := 0; k < ft.NumIn(); k++ {
+			ins = append(ins, ft.In(k))
+		}
+		var outs []reflect.Type
+		for k := 0; k < ft.NumOut(); k++ {
+			outs = append(outs, ft.Out(k))
+		}
+		fields = append(fields, reflect.StructField{Name: f.Name, Type: reflect.FuncOf(ins, outs, ft.IsVariadic())})
+	}
+	return reflect.StructOf(fields)
+}()
 
 type endpoint struct {
 	kind    string
@@ -56,6 +81,7 @@ type endpoint struct {
 	server  *tp.Server
 	clients map[string]*core.Client // by codec variant
 	proxies map[string]*Proxy
+	ctxProx map[string]reflect.Value // by codec variant: pointer to a ctxProxyType value
 	nsProxy map[string]*struct {
 		Hello func(string) (string, error)
 	}
@@ -106,7 +132,7 @@ func mkEndpointPool(kind string, poolSize int, missing bool) *endpoint {
 	if err != nil {
 		panic(fmt.Sprintf("cannot start %s: %v", kind, err))
 	}
-	ep := &endpoint{kind: kind, pool: pool, server: srv, clients: map[string]*core.Client{}, proxies: map[string]*Proxy{}, nsProxy: map[string]*struct {
+	ep := &endpoint{kind: kind, pool: pool, server: srv, clients: map[string]*core.Client{}, proxies: map[string]*Proxy{}, ctxProx: map[string]reflect.Value{}, nsProxy: map[string]*struct {
 		Hello func(string) (string, error)
 	}{}}
 	for name, opts := range codecVariants {
@@ -118,6 +144,9 @@ func mkEndpointPool(kind string, poolSize int, missing bool) *endpoint {
 		p := &Proxy{}
 		c.UseService(p)
 		ep.proxies[name] = p
+		cp := reflect.New(ctxProxyType)
+		c.UseService(cp.Interface())
+		ep.ctxProx[name] = cp
 		ns := &struct {
 			Hello func(string) (string, error)
 		}{}
@@ -175,9 +204,10 @@ type callCase struct {
 	codec   string
 	f       svc.Fn
 	args    []reflect.Value
-	mode    string // proxy | invoke | ns
+	mode    string // proxy | invoke | ns | ctxproxy
 	name    string
-	outcome string // ok | error | panic
+	outcome string          // ok | error | panic
+	ctx     context.Context // ctxproxy: the caller's context, possibly shared with other calls
 }
 
 func spell(rt *rapid.T, name string) string {
@@ -281,6 +311,16 @@ func (c callCase) remote() (r remoteResult) {
 	case "proxy":
 		fv := reflect.ValueOf(c.ep.proxies[c.codec]).Elem().FieldByName(proxyField[c.f.Name])
 		out := fv.Call(c.args)
+		if n := len(out); n > 0 && out[n-1].Type() == reflect.TypeOf((*error)(nil)).Elem() {
+			if !out[n-1].IsNil() {
+				r.err = out[n-1].Interface().(error)
+			}
+			out = out[:n-1]
+		}
+		r.vals = out
+	case "ctxproxy":
+		fv := c.ep.ctxProx[c.codec].Elem().FieldByName(proxyField[c.f.Name])
+		out := fv.Call(append([]reflect.Value{reflect.ValueOf(c.ctx)}, c.args...))
 		if n := len(out); n > 0 && out[n-1].Type() == reflect.TypeOf((*error)(nil)).Elem() {
 			if !out[n-1].IsNil() {
 				r.err = out[n-1].Interface().(error)
@@ -596,6 +636,59 @@ func bagDiff(want, got map[string]int) string {
 		out = out[:4]
 	}
 	return strings.Join(out, "; ")
+}
+
+// TestSharedContext: several calls of different functions through context-taking proxy functions that
+// all carry the same caller context (one core.ClientContext with a request header, as a request-scoped
+// context is used); every call is compared with the local call.
+func TestSharedContext(t *testing.T) {
+	setupEndpoints()
+	var proxied []svc.Fn
+	for _, f := range svc.Catalogue {
+		if _, ok := proxyField[f.Name]; ok {
+			proxied = append(proxied, f)
+		}
+	}
+	ev.Check(t, "shared-context", ev.N(3000, 200000), func(rt *rapid.T) {
+		ep := rapid.SampledFrom(endpoints).Draw(rt, "endpoint")
+		codec := rapid.SampledFrom([]string{"default", "simple", "bigint"}).Draw(rt, "codec")
+		n := rapid.IntRange(2, 4).Draw(rt, "calls")
+		cc := core.NewClientContext()
+		cc.RequestHeaders().Set("trace", "t1")
+		shared := core.WithContext(context.Background(), cc)
+		var names []string
+		var cases []callCase
+		for i := 0; i < n; i++ {
+			f := rapid.SampledFrom(proxied).Draw(rt, "fn")
+			c := callCase{ep: ep, codec: codec, f: f, mode: "ctxproxy", name: f.Name, outcome: "ok", ctx: shared}
+			cnt := len(f.In)
+			if f.Variadic {
+				cnt = len(f.In) - 1 + rapid.IntRange(0, 3).Draw(rt, "tail")
+			}
+			for k := 0; k < cnt; k++ {
+				c.args = append(c.args, uni.Gen(rt, paramType(f, k), 2, genOpts))
+			}
+			cases = append(cases, c)
+			names = append(names, f.Name)
+		}
+		canon := fmt.Sprintf("%s codec=%s one caller context through %v; first: %s", ep.kind, codec, names, cases[0])
+		ev.S.Begin("shared-context", canon)
+		for i, c := range cases {
+			problem := check(c)
+			if problem == "skip" {
+				continue
+			}
+			if problem != "" {
+				problem = fmt.Sprintf("call %d of %v on one context: %s", i+1, names, problem)
+			}
+			verdict(rt, "shared-context", "TestSharedContext", c, problem)
+		}
+		distinct := map[string]bool{}
+		for _, nm := range names {
+			distinct[nm] = true
+		}
+		ev.S.Case("shared-context", canon, len(distinct) > 1, "shared-ctx="+ep.kind, fmt.Sprintf("shared-ctx-distinct-fns=%d", len(distinct)))
+	})
 }
 
 // TestMissingMethod: an unknown name goes to the missing-method handler when one is installed, and is an
